@@ -19,6 +19,7 @@ import (
 	"fmt"
 	"go/ast"
 	"go/format"
+	"go/parser"
 	"go/token"
 	"go/types"
 	"os"
@@ -34,6 +35,7 @@ const simrtPath = "github.com/Comcast/rulio/zzverif/simrt"
 
 type stats struct {
 	Locks, Unlocks, Gos, WG, Ranges int
+	Atomics                         int
 	Skipped                         []string
 	Files                           int
 }
@@ -127,7 +129,7 @@ func main() {
 	}
 	bs, _ := json.MarshalIndent(map[string]interface{}{"Replace": replace, "Stats": st}, "", " ")
 	os.WriteFile(filepath.Join(*out, "instr_overlay.json"), bs, 0o644)
-	fmt.Printf("instr: %d files, %d lock, %d unlock, %d go, %d waitgroup, %d map-range sites; %d left alone\n", st.Files, st.Locks, st.Unlocks, st.Gos, st.WG, st.Ranges, len(st.Skipped))
+	fmt.Printf("instr: %d files, %d lock, %d unlock, %d go, %d waitgroup, %d map-range, %d atomic sites; %d left alone\n", st.Files, st.Locks, st.Unlocks, st.Gos, st.WG, st.Ranges, st.Atomics, len(st.Skipped))
 }
 
 func site(p *packages.Package, n ast.Node, repo string) string {
@@ -268,10 +270,89 @@ func instrumentFile(p *packages.Package, f *ast.File, path, repo string) bool {
 				st.Ranges++
 				changed = true
 			}
+		case *ast.CallExpr:
+			if !isAtomicCall(p, n) {
+				return true
+			}
+			switch c.Parent().(type) {
+			case *ast.DeferStmt, *ast.GoStmt:
+				st.Skipped = append(st.Skipped, "atomic "+site(p, n, repo)+" (deferred or go)")
+				return true
+			}
+			if r := rewriteAtomic(p, n, repo); r != nil {
+				c.Replace(r)
+				st.Atomics++
+				changed = true
+			}
 		}
 		return true
 	})
 	return changed
+}
+
+// isAtomicCall: a call of a sync/atomic function or of a method of a
+// sync/atomic type.
+func isAtomicCall(p *packages.Package, call *ast.CallExpr) bool {
+	var obj types.Object
+	switch fn := call.Fun.(type) {
+	case *ast.SelectorExpr:
+		if s := p.TypesInfo.Selections[fn]; s != nil {
+			obj = s.Obj()
+		} else {
+			obj = p.TypesInfo.Uses[fn.Sel]
+		}
+	case *ast.Ident:
+		obj = p.TypesInfo.Uses[fn]
+	}
+	f, ok := obj.(*types.Func)
+	return ok && f.Pkg() != nil && f.Pkg().Path() == "sync/atomic"
+}
+
+// rewriteAtomic: an atomic operation is a point where interleavings matter,
+// so the scheduler gets a yield point right before it:
+//
+//	atomic.X(args)  ->  func() T { simrt.Yield(site); return atomic.X(args) }()
+//
+// (Go 1.14 language level: no generics, hence the literal with a spelled-out
+// result type.  Only results that need no import are handled.)
+func rewriteAtomic(p *packages.Package, call *ast.CallExpr, repo string) ast.Expr {
+	where := site(p, call, repo)
+	t := p.TypesInfo.TypeOf(call)
+	var results *ast.FieldList
+	var last ast.Stmt
+	inner := &ast.CallExpr{Fun: call.Fun, Args: call.Args, Ellipsis: call.Ellipsis}
+	if tup, ok := t.(*types.Tuple); ok && tup.Len() == 0 || t == nil {
+		last = &ast.ExprStmt{X: inner}
+	} else {
+		var name string
+		switch u := t.(type) {
+		case *types.Basic:
+			if u.Kind() == types.UnsafePointer {
+				st.Skipped = append(st.Skipped, "atomic "+where+" (unsafe.Pointer)")
+				return nil
+			}
+			name = u.Name()
+		default:
+			if it, ok := t.Underlying().(*types.Interface); ok && it.Empty() {
+				name = "interface{}"
+			} else {
+				st.Skipped = append(st.Skipped, "atomic "+where+" (result type "+t.String()+")")
+				return nil
+			}
+		}
+		te, err := parser.ParseExpr(name)
+		if err != nil {
+			st.Skipped = append(st.Skipped, "atomic "+where+" (result type "+name+")")
+			return nil
+		}
+		results = &ast.FieldList{List: []*ast.Field{{Type: te}}}
+		last = &ast.ReturnStmt{Results: []ast.Expr{inner}}
+	}
+	fn := &ast.FuncLit{
+		Type: &ast.FuncType{Params: &ast.FieldList{}, Results: results},
+		Body: &ast.BlockStmt{List: []ast.Stmt{&ast.ExprStmt{X: simrtCall("Yield", lit("atomic "+where))}, last}},
+	}
+	return &ast.CallExpr{Fun: fn}
 }
 
 // rewriteGo: { a0 := arg0; ...; simrt.Go(func(){ f(a0, ...) }, site) }
